@@ -131,6 +131,13 @@ var c17hServed = map[string]int{
 
 func c17hProxy() *httptest.Server {
 	return httptest.NewServer(http.HandlerFunc(func(w http.ResponseWriter, r *http.Request) {
+		// a list server that redirects wherever the query says: the client must
+		// not follow it into a local file
+		if r.Method == http.MethodGet && r.URL.Host == "lists.example" && r.URL.Path == "/redir" {
+			w.Header().Set("Location", r.URL.Query().Get("to"))
+			w.WriteHeader(http.StatusFound)
+			return
+		}
 		m, ok := c17hServed[r.URL.String()]
 		switch {
 		case r.Method != http.MethodGet || !ok:
@@ -533,6 +540,9 @@ func c17hSpellings(R, target string) (locs []string, classes []string) {
 	add("loc-relative", rel, "./"+rel, "../"+rel, strings.TrimPrefix(target, "/"))
 	add("loc-double-slash", "//localhost"+target, "/"+target, "//"+rel)
 	add("loc-odd", " file://"+target, "file://"+target+"\n", "file://"+target+"\x00", "file://"+target+" ", "\tfile://"+target, "", " ", "file://", "file:")
+	add("loc-http-redirect", "http://lists.example/redir?to="+url.QueryEscape("file://"+target), "http://lists.example/redir?to="+url.QueryEscape("file:"+target),
+		"http://lists.example/redir?to="+url.QueryEscape(target), "http://lists.example/redir?to="+url.QueryEscape("//localhost"+target),
+		"http://lists.example/redir?to="+url.QueryEscape("ftp://localhost"+target), "http://lists.example/redir?to="+url.QueryEscape("http://lists.example/redir?to=file://"+target))
 	add("loc-http", "http://lists.example/a.txt", "HTTP://lists.example/a.txt", "https://lists.example/b.txt", "http://lists.example/etc/passwd",
 		"http://lists.example/missing.txt", "http://lists.example/blank.txt", "http://lists.example/a.txt#"+target, "http://lists.example"+target)
 	return locs, classes
@@ -669,7 +679,7 @@ func TestVerifC17Home(t *testing.T) {
 				// every spelling with no patterns; every scheme for the file
 				// outside the safe area; the file scheme everywhere (thorough:
 				// everything everywhere)
-				if !(out.Thorough() || si == 0 || (si == 1 && target == secret && strings.HasPrefix(cls[i], "loc-scheme")) || cls[i] == "loc-scheme-file") {
+				if !(out.Thorough() || si == 0 || (si == 1 && target == secret && strings.HasPrefix(cls[i], "loc-scheme")) || cls[i] == "loc-scheme-file" || cls[i] == "loc-http-redirect") {
 					continue
 				}
 				c17hHistory(t, out, tr, workDir, pats,
@@ -709,7 +719,7 @@ func TestVerifC17Home(t *testing.T) {
 			return vfPick(rh, []string{"http://lists.example/a.txt", "http://lists.example/safe/../a.txt", "http://lists.example:8080/a.txt?x=/y", "http://lists.example/blank.txt", "https://lists.example/b.txt"}), "loc-http"
 		}
 	}
-	for i, n := 0, out.Scale(80, 2000); i < n; i++ {
+	for i, n := 0, out.Scale(80, 1200); i < n; i++ {
 		pats := allSets[rh.Intn(len(allSets))]
 		used := map[string]bool{}
 		var block, allow []c17hPlant
